@@ -49,7 +49,7 @@ def fields(case_line):
 
 
 def build_case(cid, d):
-    order = ["k", "n", "q", "f", "e", "p", "m", "lim", "tx", "rs"]
+    order = ["k", "n", "q", "f", "e", "p", "m", "c", "e2", "ab", "lim", "tx", "rs"]
     return "R %s " % cid + " ".join("%s=%s" % (k, d[k]) for k in order if k in d)
 
 
@@ -68,12 +68,12 @@ def shrink(hbin, driver, case_line, names, budget=70):
         return any(n in verdict.split(",") for n in names)
 
     def candidates(dd):
-        for key, sep in (("e", ","), ("f", ","), ("m", ","), ("p", ","), ("q", ",")):
+        for key, sep in (("e2", ","), ("e", ","), ("f", ","), ("m", ","), ("c", ","), ("p", ","), ("q", ",")):
             if dd.get(key, "-") != "-":
                 items = dd[key].split(sep)
                 for i in range(len(items)):
                     rest = items[:i] + items[i + 1:]
-                    if rest or key in ("e", "f", "m"):
+                    if rest or key in ("e", "e2", "c", "f", "m"):
                         c = dict(dd)
                         c[key] = sep.join(rest) if rest else "-"
                         yield c
@@ -112,6 +112,60 @@ def shrink(hbin, driver, case_line, names, budget=70):
     return build_case("s0", d)
 
 
+SAMPLE = os.path.join(ROOT, "corpus", "C14", "extraction-sample.case")
+
+
+def coq_tokens(txt):
+    return " ".join(re.findall(r"[A-Za-z_]+|\d+|[()\[\];,=]", txt))
+
+
+def extraction_sample(c, driver):
+    """The fixed sample (corpus/C14/extraction-sample.case): every case is evaluated by coqc (Eval vm_compute of the
+    model call on the Gallina term of the case) and by the extracted OCaml code; the printed values must be equal."""
+    info = {"file": os.path.relpath(SAMPLE, ROOT), "cases": 0, "equal": 0}
+    if not os.path.exists(SAMPLE):
+        c.violation("extraction-sample", "the extraction sample %s is missing" % SAMPLE, no_input=True)
+        return info
+    lines = []
+    for l in open(SAMPLE):
+        l = l.strip()
+        if l.startswith("case: "):
+            l = l[6:]
+        if l.startswith("R ") and " k=" in l:
+            f = l.split(" ")
+            f[1] = "x%d" % len(lines)
+            lines.append(" ".join(f))
+    info["cases"] = len(lines)
+    inp = ("\n".join(lines) + "\n").encode()
+    vfile = os.path.join(c.rundir, "ExtractionSample.v")
+    p = subprocess.run([driver, "coq"], input=inp, stdout=subprocess.PIPE, stderr=subprocess.PIPE, timeout=120)
+    with open(vfile, "wb") as f:
+        f.write(p.stdout)
+    q = subprocess.run(["coqc", "-Q", os.path.join(ROOT, "coq", "theories"), "RsM", "-o",
+                        os.path.join(c.rundir, "ExtractionSample.vo"), vfile],
+                       stdout=subprocess.PIPE, stderr=subprocess.STDOUT, timeout=900)
+    out = q.stdout.decode("utf-8", "replace")
+    # one "= value : type" block per Eval
+    got = [coq_tokens("= " + b.split("\n     : ")[0]) for b in re.split(r"(?m)^\s+= ", out)[1:]]
+    e = subprocess.run([driver, "expect"], input=inp, stdout=subprocess.PIPE, stderr=subprocess.PIPE, timeout=120)
+    want = [coq_tokens(l.split(" ", 1)[1]) for l in e.stdout.decode().split("\n") if l.strip()]
+    bad = []
+    if q.returncode != 0 or len(got) != len(lines) or len(want) != len(lines):
+        bad.append("coqc rc=%d, %d values from coqc, %d from the extracted code, %d cases\n%s" % (
+            q.returncode, len(got), len(want), len(lines), out[-1500:]))
+    else:
+        for i, (a, b) in enumerate(zip(got, want)):
+            if a == b:
+                info["equal"] += 1
+            elif len(bad) < 3:
+                bad.append("case: %s\ncoqc (vm_compute): %s\nextracted OCaml  : %s" % (lines[i], a[:1500], b[:1500]))
+    if bad:
+        c.violation("extraction", "extraction sanity sample: the extracted OCaml code and Coq's own evaluation of the same model "
+                    "calls disagree (or the sample could not be evaluated); the model driver is not the model that was proved.\n"
+                    + "\n\n".join(bad), no_input=True)
+    return info
+
+
 def main(tier, replay=None):
     c = Check("C14", tier)
     if not c.coq_check():
@@ -119,6 +173,7 @@ def main(tier, replay=None):
     driver = c.build_model()
     hbin = c.build_harness()
     rd = c.rundir
+    extraction = extraction_sample(c, driver)
     cases = os.path.join(rd, "cases.txt")
     stats = {}
     if replay:
@@ -207,7 +262,8 @@ def main(tier, replay=None):
         if sum(reported.values()) > 4:
             continue
         # a case without an answer costs the hang timer each time it is tried: shrink those only a little
-        small = shrink(hbin, driver, cl, names, budget=(10 if any(n.startswith("no-answer") for n in names) else 70))
+        slow = any(n.startswith("no-answer") for n in names) or (" k=u " in cl and " ab=x" in cl)
+        small = shrink(hbin, driver, cl, names, budget=(10 if slow else 70))
         i1 = run_lines([hbin, "run"], [small], tag="rep").get("R s0", "")
         m1 = run_lines([driver], [small], stdin=True).get("R s0", "")
         s1 = run_lines([driver, "spec"], [spec_input(small, i1)], stdin=True).get("R s0", "")
@@ -215,8 +271,11 @@ def main(tier, replay=None):
             "property C14 fails on the implementation (two real nodes, in-memory network): the extracted property "
             "(Model/ChunkSpec.v c14_holds / c14_partial) is false on the chunks the responder sent: " + verdict,
             "case: " + small,
-            "  (k = read|subscribe; n = clusters ep.cluster.dataver:attr=s<len>|l<len>+<len>..; q = attribute paths; "
-            "f = data-version filters; e = events ep.cluster.event.prio.len.timestamp; p = event paths; m = event_min)",
+            "  (k = r read|s subscribe|u subscription report after the changes c and the events e2; n = clusters "
+            "ep.cluster.dataver:attr=s<len>|l<len>+<len>..; q = attribute paths; f = data-version filters; "
+            "e = events ep.cluster.event.prio.len.timestamp; p = event paths; m = event_min; ab = f<k> the peer answers chunk k "
+            "with a failure status | x<k> the peer is silent after chunk k; 'next' = the interaction after an abort; "
+            "subs = subscriptions left on the device)",
             "implementation: " + i1,
             "model         : " + m1,
             "property      : " + s1,
@@ -242,7 +301,7 @@ def main(tier, replay=None):
 
     # --- evidence
     nt = set()
-    outcomes, nchunks, kinds = {}, {}, {}
+    outcomes, nchunks, kinds, kinds_k, aborts = {}, {}, {}, {}, {}
     atoms = {"v": 0, "k": 0, "x": 0, "t": 0, "n": 0, "u": 0}
     max_chunk = 0
     full_chunks = 0
@@ -260,7 +319,17 @@ def main(tier, replay=None):
         if n >= 2 or o != "done":
             nt.add(" ".join(cl.split(" ")[2:]))
         il = impl.get(key, "")
-        for ch in il.split(" | ", 1)[1].split(";") if " | " in il else []:
+        kind = fields(cl).get("k", "r")
+        kinds_k[kind] = kinds_k.get(kind, 0) + 1
+        ab = fields(cl).get("ab", "-")
+        if ab != "-":
+            what = ("refuses" if ab[0] == "f" else "silent") + (" (took effect)" if o == "aborted" else " (answer was shorter)")
+            aborts[what] = aborts.get(what, 0) + 1
+            if " next done" in il:
+                aborts["next interaction complete"] = aborts.get("next interaction complete", 0) + 1
+        # every chunk list on the line: the measured interaction and, if present, the next one
+        lists = [seg.strip().split(" ")[0] for seg in il.split(" | ")[1:]]
+        for ch in [x for l in lists for x in l.split(";")]:
             parts = ch.strip().split(":")
             if len(parts) == 4 and parts[0].isdigit():
                 size = int(parts[0])
@@ -281,13 +350,20 @@ def main(tier, replay=None):
         "evaluations": len(case_by_key),
         "distinct_nontrivial": len(nt),
         "rule": "one case = one synthetic node (clusters of octet-string attributes and lists, event queue) + one read or "
-                "subscribe request, answered by the crate's InteractionModel on a real Matter instance and fetched by a second "
-                "one over the in-memory network; every chunk is re-parsed as stand-alone TLV (independent walker + the crate's "
-                "own parser), decoded, and the chunk list (sizes, flags, reports in order) is compared with the model's; "
-                "non-trivial = distinct case (id removed) whose model answer has at least two chunks or ends with ResourceExhausted",
+                "subscribe request (k=r, k=s) or one subscription report (k=u: subscribe, prime, notify changed attributes and "
+                "emit events, take the report the device's reporter sends on its own), answered by the crate's InteractionModel "
+                "on a real Matter instance and fetched by a second one over the in-memory network, optionally with a peer that "
+                "answers chunk k with a failure status or falls silent after it (then also the next interaction: the same request "
+                "again, or the reporter's retry once the peer is back); every chunk is re-parsed as stand-alone TLV (independent "
+                "walker + the crate's own parser), decoded, and the chunk lists (sizes, flags, reports in order), the number of "
+                "subscriptions left and the next interaction are compared with the model's; non-trivial = distinct case (id removed) "
+                "whose model answer has at least two chunks or does not end with 'done'",
         "samples": samples,
         "generator_distribution": stats,
         "cases_by_stream": kinds,
+        "cases_by_kind": kinds_k,
+        "peer_aborts": aborts,
+        "extraction_sample": extraction,
         "model_outcomes": outcomes,
         "chunks_per_answer": dict(sorted(nchunks.items(), key=lambda kv: int(kv[0][2:]) if kv[0][2:].isdigit() else -1)),
         "reports_seen_by_kind": atoms,
@@ -307,13 +383,19 @@ def main(tier, replay=None):
              trusted_base=["Coq 8.16.1 kernel (coqc; coqchk in thorough tier)", "no axioms (Closed under the global context)",
                            "extraction ExtrOcamlBasic + hand-written OCaml driver ocaml/c14/driver.ml, ocaml/common/util.ml",
                            "Rust harness harness/src/bin/c14.rs (synthetic data model, request encoder, stand-alone TLV walker and "
-                           "chunk decoder) and harness/src/e2e.rs; hook Events::verif_push_at (cfg rs_matter_verif)",
+                           "chunk decoder, scripted peer) and harness/src/e2e.rs; hooks Events::verif_push_at, Subscriptions::"
+                           "verif_fabric_view / verif_report_slot_free (cfg rs_matter_verif)",
+                           "extraction: the 200-case sample corpus/C14/extraction-sample.case is evaluated by coqc (vm_compute) and by the "
+                           "extracted code in every run and must print the same values",
                            "the sizes of the TLV encodings (Model/Chunk.v attr_data_size, event_report_size ...) are part of the model and are "
                            "checked only through the chunk sizes compared on every case",
                            "correspondence is differential testing on the generated cases"],
              assumptions=["the transmit buffer size is a compile-time constant (1178 bytes, reserve 24): the boundary arithmetic is exercised "
                           "by varying value sizes, which is equivalent for it; the theorems hold for every buffer size with reserve >= 10",
-                          "the client always answers Success to a chunk (a peer that answers an error ends the interaction; not part of the property)",
+                          "a peer either answers a chunk with Success, or with another status, or not at all (no acknowledgement either); "
+                          "a peer that acknowledges but never answers is not modelled",
+                          "after silence in a report the harness gives both nodes a fresh session (the device marks the old one expired and "
+                          "would establish a new CASE session, which the harness cannot do)",
                           "event numbers increase along the queue (what im/events.rs maintains); no event is emitted or evicted during the answer",
                           "attribute handlers follow the crate's convention: ReadReply::with_dataver first, ConstraintError for an index past the end",
                           "model = Model/Chunk.v hand-transcribed from im.rs (repaired), tied to the code only by the correspondence run"])
